@@ -135,6 +135,15 @@ type balActor struct {
 	name string
 	addr []byte // what is passed as the address argument
 	key  *keys.PrivateKey
+	null bool // the argument is the VM's Null, not a byte string
+}
+
+// arg is the address as a call argument.
+func (a balActor) arg() any {
+	if a.null {
+		return nil
+	}
+	return a.addr
 }
 
 type balEngine struct {
@@ -297,7 +306,7 @@ func (e *balEngine) account(idx int, allowMalformed, allowLocks bool) balActor {
 	}
 	pool := len(e.users) + nl
 	if allowMalformed && e.allowBad {
-		pool += 3
+		pool += 4
 	}
 	i := idx % pool
 	if i < len(e.users) {
@@ -313,8 +322,11 @@ func (e *balEngine) account(idx int, allowMalformed, allowLocks bool) balActor {
 		return balActor{name: "nil", addr: []byte{}}
 	case 1:
 		return balActor{name: "short19", addr: bytes.Repeat([]byte{7}, 19)}
-	default:
+	case 2:
 		return balActor{name: "long21", addr: bytes.Repeat([]byte{9}, 21)}
+	default:
+		// what the contract itself uses for "no account" in mint and burn
+		return balActor{name: "null", addr: []byte{}, null: true}
 	}
 }
 
@@ -422,7 +434,7 @@ func (e *balEngine) build(op balOp) *balTx {
 			e.finishTx(bt, fault, w.holderCall(e.holder, e.bal, from.addr, to.addr, amt))
 		} else {
 			bt.desc = fmt.Sprintf("transfer(%s→%s, %s)", from.name, to.name, amt)
-			e.finishTx(bt, fault, CallScript(e.bal, "transfer", from.addr, to.addr, amt, nil))
+			e.finishTx(bt, fault, CallScript(e.bal, "transfer", from.arg(), to.arg(), amt, nil))
 		}
 	case bTransferX:
 		// the Alphabet never moves funds *out of* a lock account other than by
